@@ -122,6 +122,10 @@ def run(rep, tier):
            "in BM25Index::insert every path from a token's posting entry to the next token passes the buckets_to_update.entry(..) record "
            "(a no-op push must still mark the bucket for re-persisting)", (pe[0].where() if pe else ins.file))
 
+    nsz = ix.size_change_marks_dirty(rep, "R11.2", prog, "bm25")
+    if nsz < 5:
+        rep.fault("R11.2: only %d bucket size writes found in the BM25 mutators" % nsz)
+
     rep.rule("R11.3", "ranking is a total order: all sorts/selects over scored docs use compare_scored_docs (total_cmp + id); truncate after select_nth, then sort", floor=5)
     cmpf = prog.fn(BM + "::compare_scored_docs")
     rep.saw(cmpf, len(cmpf.events))
